@@ -356,8 +356,11 @@ class HistogramND(HistogramBase):
             if self.keep_missed:
                 self._missed += weight
         else:
-            self._frequencies[ixbin] += weight
-            self._errors2[ixbin] += weight**2
+            # Compute both new values first (they may overflow) so that a failure changes nothing
+            new_frequency = self._frequencies[ixbin] + weight
+            new_error2 = self._errors2[ixbin] + weight**2
+            self._frequencies[ixbin] = new_frequency
+            self._errors2[ixbin] = new_error2
         return ixbin
 
     def fill_n(
